@@ -217,6 +217,10 @@ def _sorted_spans(run, g, R, name):
                         if any(isinstance(pr, dict) and pr.get("name") == "offset" for pr in pl["p"]):
                             keyed = True
     ok = bool(sorts) and bool(iters) and all(any(g.dominates(s, i) for s in sorts) for i in iters) and keyed
+    # spans that share an offset (a label and the item after it, zero-sized items) keep the order they were written in: the sort is stable
+    unstable = [t.get("callee") for bi, t in g.calls() if re.search(r"slice::<impl \[T\]>::sort_unstable", t.get("resolved") or t.get("callee") or "")]
+    run.check(not unstable, R, "%s|sorted-stable|%s" % (R, name), g.loc(), "%s sorts its spans with a stable sort" % name,
+              "%s sorts its spans with `%s`: rows that share an output position (a label and the item that follows it) would be listed in an arbitrary order" % (name, (unstable or ["?"])[0].rsplit("::", 1)[-1]))
     run.check(ok, R, "%s|sorted|%s" % (R, name), g.loc(), "%s walks the spans only after sorting them by output offset" % name,
               "%s iterates the spans without a dominating sort by offset: rows would appear in emission order of the walk, not output order" % name)
 
@@ -753,7 +757,8 @@ def inclusion(run, R="INC"):
         for bi, si, st in g.stmts():
             if st["k"] == "assign" and st["rv"]["k"] == "binop" and st["rv"]["op"] in ("Eq", "Ne") and "0_usize" in (_deep(g, st["rv"]["l"], 3), _deep(g, st["rv"]["r"], 3)):
                 tt = g.blocks[bi]["term"]
-                if tt["k"] == "switch" and not any(value_depends_on(g, o_, l) for o_ in (st["rv"]["l"], st["rv"]["r"]) for l in s_locals + e_locals):
+                if tt["k"] == "switch" and not any(value_depends_on(g, o_, l) for o_ in (st["rv"]["l"], st["rv"]["r"]) for l in s_locals + e_locals) \
+                        and not any(re.search(r"expect_usize\(", _deep(g, o_, 8)) for o_ in (st["rv"]["l"], st["rv"]["r"])):
                     ft = [tg for v, tg in tt["targets"] if v == "0"]
                     if ft:
                         empty_edges.append((bi, tt["otherwise"] if st["rv"]["op"] == "Eq" else ft[0]))
@@ -1087,6 +1092,34 @@ def alignment_rules(run, R="ALIGN"):
                 run.check(ok, R, "%s|absolute|%s" % (R, root), f.loc(t["span"]), "%s aligns addr_start x addr_unit + position" % root.rsplit("::", 1)[-1],
                           "%s asks for the padding of `%s`, expected the absolute bit address (addr_start x addr_unit + cur_position)" % (root, d[:160]))
     run.floor(R, "alignment computations", n, 2)
+    # an address that is not a whole number of units is an error unless guessing is allowed: the flag handed to eval_address is the
+    # pass's own `can_guess()` and nothing else (or the constant of an audited caller)
+    audited_const = {"asm::resolver::eval_asm::resolve_once": "labels inside an asm block are provisional until the block's own confirming pass",
+                     }
+    ng = 0
+    for f in prog.real_fns():
+        for bi, t in f.calls():
+            c = t.get("resolved") or t.get("callee") or ""
+            if not re.search(r"ResolverContext(::<.*>)?::eval_address$", c):
+                continue
+            ng += 1
+            flag = [a for a, ty in zip(t["args"], t.get("arg_tys") or []) if ty == "bool"]
+            root = f.raw.get("root") or f.id
+            okf = False
+            whyf = "no bool argument"
+            if len(flag) == 1:
+                a = flag[0]
+                if const_int(a) is not None:
+                    okf = const_int(a) == 0 or root in audited_const
+                    whyf = "the constant `true` (always allowed to be misaligned) in a caller that is not audited for it"
+                else:
+                    o = f.origin_op(a)
+                    o = peel(o) if o else o
+                    okf = bool(o and o[0] == "call" and re.search(r"ResolverContext(::<.*>)?::can_guess$", o[1].get("resolved") or o[1].get("callee") or ""))
+                    whyf = "`%s`, which is not the pass's can_guess() alone" % describe_origin(f, f.origin_op(a))[:100]
+            run.check(okf, R, "%s|guess-flag|%s" % (R, root), f.loc(t["span"]), "%s hands eval_address the pass's own can_guess() (or an audited constant)" % root.rsplit("::", 1)[-1],
+                      "%s lets eval_address accept a position that is not on an address boundary under %s: in the confirming pass a misaligned label would get a truncated address instead of the error" % (root, whyf))
+    run.floor(R, "eval_address call sites", ng, 3)
     g = run.anchor(R, "asm::resolver::iter::bits_until_alignment")
     if g is not None:
         cm = calls_to(g, "BigInt::checked_mod")
@@ -1222,6 +1255,73 @@ def _read_places(f, op, seen=None, depth=0, out=None):
     return out
 
 
+def _bank_overlap_via_helper(run, f, dec):
+    """the overlap decision reads two calls of a local helper, one per bank, each given that bank's optional size; in the helper
+    every answer computed on the `size is Some` edge reads the size"""
+    prog = run.prog
+    calls = []
+    for bi, t in f.calls():
+        h = prog.fn(t.get("resolved") or t.get("callee") or "")
+        if h is None or not h.id.startswith("asm::output::"):
+            continue
+        for i, (a, ty) in enumerate(zip(t["args"], t.get("arg_tys") or [])):
+            if "Option<usize>" in ty and _deep(f, a, 6).endswith(".size"):
+                calls.append((bi, t, h, i + 1, _deep(f, a, 6)))
+    if len(calls) < 2 or len(set(c[4] for c in calls)) < 2:
+        return False, "the decision does not ask about the sizes of both banks (%d helper call(s) given a bank size)" % len(calls), len(calls)
+    # the decision depends on every such call: by data, or by control (`a && b`)
+    reads = set()
+    ctrl = set()
+    for dd in f.full_defs(dec):
+        if dd[0] == "call":
+            reads.add(dd[2]["dest"]["l"])
+            for a in dd[2]["args"]:
+                for l_, pr in _read_places(f, a):
+                    reads.add(l_)
+        else:
+            from mir import rv_operands
+            for o in rv_operands(dd[3]["rv"]):
+                for l_, pr in _read_places(f, o):
+                    reads.add(l_)
+        for sb in f.dominators().get(dd[1], ()):
+            t2 = f.blocks[sb]["term"]
+            if t2["k"] == "switch" and sb != dd[1] and op_local(t2["discr"]) is not None:
+                for l_, pr in _read_places(f, t2["discr"]):
+                    ctrl.add(l_)
+    for bi, t, h, k, d in calls:
+        if t["dest"]["l"] not in reads and t["dest"]["l"] not in ctrl and f.copy_root(t["dest"]["l"]) != dec:
+            return False, "the answer about `%s` does not reach the decision" % d, len(calls)
+    # inside the helper
+    for h, k in set((c[2], c[3]) for c in calls):
+        from rules_sym import option_tests
+        tests = option_tests(h, lambda d: d == "P%d" % k)
+        if not tests:
+            return False, "%s does not test whether the size it is given is present" % h.id, len(calls)
+        n_ans = 0
+        for sb, some, none in tests:
+            for dd in h.full_defs(0):
+                if not h.edge_dominates(sb, some, dd[1]):
+                    continue
+                n_ans += 1
+                rd = set()
+                if dd[0] == "call":
+                    for a in dd[2]["args"]:
+                        _read_places(h, a, out=rd)
+                else:
+                    from mir import rv_operands
+                    for o in rv_operands(dd[3]["rv"]):
+                        _read_places(h, o, out=rd)
+                for sb2 in h.dominators().get(dd[1], ()):
+                    t2 = h.blocks[sb2]["term"]
+                    if t2["k"] == "switch" and sb2 != dd[1] and h.edge_dominates(sb, some, sb2) and op_local(t2["discr"]) is not None:
+                        _read_places(h, t2["discr"], out=rd)
+                if not any(l_ == k and "Some" in pr for l_, pr in rd):
+                    return False, "%s answers on the `has a size` edge without reading the size" % h.id, len(calls)
+        if n_ans == 0:
+            return False, "%s gives no answer on the `has a size` edge" % h.id, len(calls)
+    return True, "", len(calls)
+
+
 def bank_overlap_rules(run, R="MPT"):
     """check_bank_overlap: whenever a bank of a pair has a size, the overlap decision for that pair reads that size (its end),
     not only where the banks start"""
@@ -1259,6 +1359,12 @@ def bank_overlap_rules(run, R="MPT"):
         key = (pl["l"], tuple((pr.get("name") if "f" in pr else pr.get("downcast")) if isinstance(pr, dict) else pr for pr in pl["p"]))
         for tg in some:
             size_switches.append((b, tg, key))
+    if not size_switches:
+        # the same decision with the per-bank half factored into a helper: `ends_after(outp1, size1, outp2) && ends_after(outp2, size2, outp1)`
+        ok_h, why_h, nh = _bank_overlap_via_helper(run, f, dec)
+        run.check(ok_h, R, R + "|bank-overlap|sizes-decide", f.loc(), "for every pair of banks, a bank's size takes part in the overlap decision whenever it has one (%d helper call(s), helper inspected)" % nh,
+                  "check_bank_overlap: %s: a sized bank that starts before an unbounded one and reaches into it would be accepted" % why_h)
+        return
     n = 0
     bad = []
     groups = {}
@@ -1352,3 +1458,83 @@ def no_failure_after_write(run, R="WRITE"):
         why = "; ".join(bad)
     run.check(ok, R, R + "|no-failure-after-write", f.loc(), "assemble_with_command: after a successful write the run can only fail through another write (%d write site(s))" % len(wr),
               "assemble_with_command can fail after an output file was already written (%s): a failed run would leave output behind" % why)
+
+
+def get_blocks_rules(run, R="MPT"):
+    """BitVec::get_blocks (Intel HEX records): a span that does not continue the current block always starts a new one -- on the
+    `offset != origin + size` edge every path through the loop body resets the current origin before the origin is looked at again"""
+    f = run.anchor(R, "util::bitvec::BitVec::get_blocks")
+    if f is None:
+        return
+    ok, why = False, "the discontinuity test `span offset != origin + size` was not found"
+    for bi, si, st in f.stmts():
+        if st["k"] != "assign" or st["rv"]["k"] != "binop" or st["rv"]["op"] not in ("Ne", "Eq"):
+            continue
+        l, r = _deep(f, st["rv"]["l"], 6), _deep(f, st["rv"]["r"], 6)
+        both = l + " | " + r
+        if not (re.search(r"\.offset(@Some\.0)?", both) and re.search(r"\((var[^()]*|[^()]*@Some\.0) Add var[^()]*\)", both)):
+            continue
+        tt = f.blocks[bi]["term"]
+        if tt["k"] != "switch":
+            continue
+        ft = [tg for v, tg in tt["targets"] if v == "0"]
+        if not ft:
+            continue
+        disc_edge = tt["otherwise"] if st["rv"]["op"] == "Ne" else ft[0]
+        # the origin is the Option local unwrapped in the sum
+        m = re.search(r"\((var:\w+|[^()]*)@Some\.0 Add", both)
+        origin_locals = [x for x in range(len(f.locals)) if "Option<usize>" in str(f.local_ty(x)) and f.local_name(x)]
+        resets = [b2 for b2, s2, st2 in f.stmts() if st2["k"] == "assign" and st2["rv"]["k"] == "agg" and st2["rv"].get("variant") == "None" and not st2["place"]["p"]
+                  and f.copy_root(st2["place"]["l"]) in origin_locals or (st2["k"] == "assign" and st2["rv"]["k"] == "agg" and st2["rv"].get("variant") == "None" and any(
+                      d[0] == "stmt" and d[3]["rv"]["k"] == "use" and op_local(d[3]["rv"]["op"]) == st2["place"]["l"] for x in origin_locals for d in f.full_defs(x)))]
+        loop = set()
+        for h in f.reachable():
+            lp = natural_loop(f, h)
+            if bi in lp:
+                loop |= lp
+        resets = [b2 for b2 in resets if b2 in loop]
+        # the next look at the origin: a discriminant read of an origin local inside the loop, after the test
+        looks = [b2 for b2, s2, st2 in f.stmts() if b2 in loop and b2 != bi and st2["k"] == "assign" and st2["rv"]["k"] == "discr" and st2["rv"]["place"]["l"] in origin_locals]
+        if not resets:
+            why = "no reset of the current origin inside the loop"
+            continue
+        seen, work = set(), [disc_edge]
+        escaped = None
+        while work:
+            x = work.pop()
+            if x in seen or x in resets or x not in loop:
+                continue
+            seen.add(x)
+            if x in looks and x != bi and not f.dominates(x, bi):
+                escaped = x
+                continue
+            work.extend(f.succs(x))
+        ok = escaped is None
+        why = "on the `does not continue the block` edge the origin can be looked at again (block %s) without having been reset: a span after a gap would be put into the previous block's address range" % escaped
+    run.check(ok, R, R + "|get-blocks|gap-starts-block", f.loc(), "get_blocks: a span that does not continue the current block always starts a new block",
+              "BitVec::get_blocks: %s" % why)
+
+
+def symbol_bank_rule(run, R="MPT"):
+    """the bank recorded for a label (used for the Mesen offsets) is the bank the resolver was laying out when it reached the
+    label: every value stored into Symbol.bankdef_ref is None or Some(<resolver context>.bank_ref)"""
+    n_some, bad = 0, []
+    for f in run.prog.real_fns():
+        for bi, si, st in f.stmts():
+            if st["k"] != "assign":
+                continue
+            vals = []
+            pr = st["place"]["p"]
+            if pr and isinstance(pr[-1], dict) and pr[-1].get("name") == "bankdef_ref" and "Option<" in str(pr[-1].get("ty")) and st["rv"]["k"] == "use":
+                vals.append(_deep(f, st["rv"]["op"], 5))
+            if st["rv"]["k"] == "agg" and str(st["rv"].get("adt", "")).endswith("defs::symbol::Symbol") and "bankdef_ref" in (st["rv"].get("fields") or []):
+                vals.append(_deep(f, st["rv"]["ops"][st["rv"]["fields"].index("bankdef_ref")], 5))
+            for v in vals:
+                if v == "None{}":
+                    continue
+                if re.fullmatch(r"Some\{(P\d+|upvar:\w+)(\.\w+)*\.bank_ref\}", v) and any("ResolverContext" in str(f.local_ty(i)) for i in range(1, f.arg_count + 1)):
+                    n_some += 1
+                else:
+                    bad.append("%s: `%s`" % (f.loc(st["span"]), v[:80]))
+    run.check(n_some >= 1 and not bad, R, R + "|symbol-bank|from-context", "-", "a label's bank is the resolver context's current bank (%d store(s)); nothing else writes it" % n_some,
+              "a symbol's bank is taken from %s, not from the resolver context that laid the label out: the bank of a label after `#bankdef` (which selects the new bank implicitly) would be wrong in the Mesen listing" % ("; ".join(bad) or "nowhere"))
